@@ -78,19 +78,27 @@ def check(case):
         attempt("Gfa", f, fails, c)
         return dict(key=("doc", text), nontrivial=True, failures=fails, sample=dict(text=text, vlevel=vlevel))
     if kind == "file":
-        _, data, vlevel = case
-        c = dict(data=repr(data), vlevel=vlevel, repro="import gfapy\nopen('/tmp/x.gfa','wb').write(%r)\ngfapy.Gfa.from_file('/tmp/x.gfa', vlevel=%d)" % (data, vlevel))
+        _, data, vlevel = case[:3]
+        progress = len(case) > 3 and case[3]
+        c = dict(data=repr(data), vlevel=vlevel, progress=progress, repro="import gfapy\nopen('/tmp/x.gfa','wb').write(%r)\ngfapy.Gfa.from_file('/tmp/x.gfa', vlevel=%d)" % (data, vlevel))
         def f():
             import tempfile, os
             fd, pth = tempfile.mkstemp(suffix=".gfa")
             try:
                 os.write(fd, data); os.close(fd)
-                g = gfapy.Gfa.from_file(pth, vlevel=vlevel)
+                if progress:
+                    import io, contextlib
+                    g = gfapy.Gfa(vlevel=vlevel)
+                    with contextlib.redirect_stderr(io.StringIO()):
+                        g.enable_progress_logging()
+                        g.read_file(pth)
+                else:
+                    g = gfapy.Gfa.from_file(pth, vlevel=vlevel)
                 str(g)
             finally:
                 os.unlink(pth)
         attempt("from_file", f, fails, c)
-        return dict(key=("file", data, vlevel), nontrivial=True, failures=fails, sample=dict(data=repr(data)))
+        return dict(key=("file", data, vlevel, progress), nontrivial=True, failures=fails, sample=dict(data=repr(data)))
     if kind == "groups":
         _, lines, vlevel = case
         c = dict(lines=lines, vlevel=vlevel, repro="import gfapy\ng = gfapy.Gfa(%r, vlevel=%d)\nfor l in g.lines: [getattr(l, q, None) for q in ('captured_path', 'induced_set')]\ng.to_gfa1()" % (lines, vlevel))
@@ -228,6 +236,7 @@ def cases(tier, seed):
     for data in (b"S\ta\t*\txx:Z:\xff\xfe\n", b"\xff\xfeS\x00", b"H\tVN:Z:1.0\n\x80\n", b"S\ta\t*\n\x00\x00"):
         for vlevel in (0, 1):
             out.append(("file", data, vlevel))
+            out.append(("file", data, vlevel, True))          # read_file with progress logging on (the lines are counted first)
     # groups that contain themselves, directly or through each other
     base2 = ["S\tA\t8\t*", "S\tB\t8\t*", "E\te1\tA+\tB+\t6\t8$\t0\t2\t*"]
     for gl in (["O\ta\tb+", "O\tb\ta+"], ["O\ta\ta+"], ["O\ta\tA+ b-", "O\tb\te1+ a+"], ["U\ta\tb", "U\tb\ta"], ["U\ta\ta A"], ["U\ta\tb A", "U\tb\tc", "U\tc\ta e1"],
